@@ -48,7 +48,7 @@ static const char *CTN[CT_COUNT] = {
     "probe_hkdf_expand_crossed_8160", "probe_hkdf_expand_after_exhaustion", "probe_hkdf_oneshot_exactly_8160", "probe_hkdf_oneshot_refused", "probe_hkdf_expand_checked",
     "probe_hkdf_zero_length_expand", "probe_hkdf_empty_salt", "probe_hkdf_leftover_served",
     "probe_prng_autoreseed_mid_generate", "probe_prng_two_autoreseeds_one_call", "probe_prng_short_delivery_on_autoreseed", "probe_prng_carry_chain", "probe_prng_generate_checked",
-    "probe_prng_limit_lowered_below_emitted", "probe_prng_feed_at_budget_edge", "probe_prng_generate_to_edge", "probe_prng_generated_past_1MiB",
+    "probe_prng_limit_lowered_below_emitted", "probe_prng_feed_at_budget_edge", "probe_prng_long_feed_run", "probe_prng_generate_to_edge", "probe_prng_generated_past_1MiB",
     "probe_prng_init_failed_delivery", "probe_prng_reseed_failed_delivery", "probe_prng_null_callback_init", "probe_prng_system_source_init", "probe_prng_twin_flip_checked", "probe_prng_twin_equiv_checked",
     "probe_trng_calls", "probe_trng_success_after_retries", "probe_trng_permanent_error", "probe_trng_fd_opened",
     "probe_free_checked", "probe_free_never_initialised", "probe_free_mid_message", "probe_free_after_finalize", "probe_free_twice", "probe_clean_checked",
